@@ -974,6 +974,18 @@ class PipeWorld:
                 self.violate('C05', 'failure_triggered_work', ref.kind[y],
                              f'{alg}[{t}] {status}; {y} gained pending {sorted(set(ta) - set(tb))}')
 
+    def fsm_fields(self):
+        import dawgie.pl.farm as farm
+        import dawgie.pl.schedule as schedule
+
+        f = self.fsm
+        nodes = {t: (tuple(n.get('todo')), tuple(sorted(n.get('doing'))), tuple(sorted(n.get('do')))) for t, n in self.nodes().items()}
+        return dict(state=f.state, transitioning=f.transitioning.name, prior=f._FSM__prior, priority=f.priority, changeset=f.changeset,
+                    waits=(f.wait_on_crew.is_set(), f.wait_on_doing.is_set(), f.wait_on_todo.is_set()),
+                    threads=(id(f.crew_thread), id(f.doing_thread), id(f.todo_thread)), archive=farm.ARCHIVE,
+                    que=[j.tag for j in schedule.que], nodes=nodes, workers=len(farm._workers), busy=list(farm._busy),
+                    cluster=len(farm._cluster), paused=schedule.pipeline_paused)
+
     # -- per-step invariants ----------------------------------------------
     def after_step(self, kind, label):
         import dawgie.context as ctx
@@ -1092,7 +1104,7 @@ class PipeWorld:
         try:
             self.build()
             self.watch_hands()
-            self.fsm = pipeenv.boot_pipeline(self.sim)
+            self.fsm = pipeenv.boot_pipeline(self.sim, fsm_cls=getattr(self, 'fsm_cls', None))
             self.op('pipeline is running')
             nw = cfg['workers'] if isinstance(cfg['workers'], int) else cfg['workers'][self.ch.choose('gen.workers', len(cfg['workers']))]
             self.workers = [Worker(self, i) for i in range(nw)]
